@@ -5,7 +5,9 @@ Every function is read in the NORMAL FORM computed by translator/c18_norm.py (ge
 module-level constants resolved, private helpers of the package inlined, single-binding local aliases and named
 intermediate results substituted, match / local dispatch dict -> if chain, guard clauses, filling loops -> comprehensions,
 conditional assignments -> conditional expressions, loops over literal tuples unrolled, getattr/setattr with literal
-names, annotations / docstrings / logging dropped), so that a refactoring of those kinds yields the same table; every
+names, pure builtin calls / identity tests held in locals substituted, class patterns -> isinstance, functools.partial of
+a helper expanded, dict(<generator>) -> comprehension, tuple unpacking and merged with-statements split, annotations /
+docstrings / logging dropped), so that a refactoring of those kinds yields the same table; every
 shape the normal form does not reduce to the ones below still fails closed.
 
 Extracted (nothing else is believed about the code):
@@ -15,7 +17,10 @@ Extracted (nothing else is believed about the code):
                      statement that stores into the new detector: which container <- which key of "data"
                      (through local aliases), which key.replace(a, b) unescaping
   * Detector.from_dict : tag -> class dispatch
-  * Photon.to_dict / from_dict : the two sub-keys and their escaping, in test order
+  * Photon.to_dict / from_dict : the two sub-keys and their escaping; read PATH BY PATH (every execution path through the
+                     ifs, so guard clauses / early returns / if-elif / nested ifs with inverted tests are one shape): which
+                     key is written from a plain copy / from every entry of self._array.to_dict(); which attribute is stored
+                     from which key when the first / only the second / neither tested key is present
   * backends/asdf.py  : version/type/properties/data are passed through unchanged, the frame goes through
                      DataFrame.to_dict(orient="list") / pd.DataFrame(...)
   * models/util.py load_detector : does any statement store into the PASSED detector, or is the parameter
